@@ -69,6 +69,54 @@ fn exec(req: &str) -> String {
                 };
                 match hook::close_preprocess(&ctx) { Ok(true) => "ok owner".into(), Ok(false) => "ok keeper".into(), Err(_) => "err".into() }
             }
+            // Close::preprocess with an explicit caller identity:
+            // act closepre2 <who: o|r|x> <hasRole> <state> <skip> <receiverDistinct>
+            "closepre2" => {
+                let who = *t.get(2)?;
+                let has_role = *t.get(3)? == "1";
+                let raw: u8 = t.get(4)?.parse().ok()?;
+                let skip = *t.get(5)? == "1";
+                let rd = *t.get(6)? == "1";
+                if !matches!(who, "o" | "r" | "x") || t.len() != 7 { return None; }
+                let (owner, keeper, other, receiver) = (pk(1), pk(2), pk(3), pk(4));
+                let action_info: &'static AccountInfo<'static> = Box::leak(Box::new(deposit_account(raw, owner)));
+                if rd {
+                    // `receiver` is a private field: owner, nonce[32], max_execution_lamports, updated_at, updated_at_slot,
+                    // creator, rent_receiver, receiver — written by offset and checked through the public getter
+                    let header_off = {
+                        let l = AccountLoader::<Deposit>::try_from(action_info).ok()?;
+                        let mut d = l.load_mut().ok()?;
+                        let base = &*d as *const Deposit as usize;
+                        hook::deposit_header_mut(&mut d) as *mut _ as usize - base
+                    };
+                    let off = 8 + header_off + std::mem::offset_of!(gmsol_store::states::common::action::ActionHeader, owner) + 32 + 32 + 8 + 8 + 8 + 32 + 32;
+                    action_info.try_borrow_mut_data().unwrap()[off..off + 32].copy_from_slice(receiver.as_ref());
+                }
+                let action: AccountLoader<'static, Deposit> = AccountLoader::try_from(action_info).ok()?;
+                {
+                    use gmsol_store::states::common::action::Action;
+                    let d = action.load().ok()?;
+                    let got = d.header().receiver();
+                    if got != (if rd { receiver } else { owner }) || d.header().owner != owner { return Some("layout-changed".into()); }
+                }
+                let caller = match who { "o" => owner, "r" => if rd { receiver } else { owner }, _ => other };
+                let store_info = zero_copy_account::<Store>(pk(800), gmsol_store::ID, |s| {
+                    s.init(pk(7), "", 255, pk(8), pk(9)).unwrap();
+                    s.enable_role(RoleKey::ORDER_KEEPER).unwrap();
+                    s.grant(&keeper, RoleKey::ORDER_KEEPER).unwrap();
+                    if has_role { s.grant(&caller, RoleKey::ORDER_KEEPER).unwrap(); }
+                });
+                let store_info: &'static AccountInfo<'static> = Box::leak(Box::new(store_info));
+                let auth_info: &'static AccountInfo<'static> = Box::leak(Box::new(leak_account(caller, anchor_lang::system_program::ID, 0, true, true)));
+                let ctx = hook::VerifClose {
+                    authority: Signer::try_from(auth_info).ok()?,
+                    store: AccountLoader::try_from(store_info).ok()?,
+                    action,
+                    keeper_role: RoleKey::ORDER_KEEPER.to_string(),
+                    skip_completion_check: skip,
+                };
+                match hook::close_preprocess(&ctx) { Ok(true) => "ok owner".into(), Ok(false) => "ok keeper".into(), Err(_) => "err".into() }
+            }
             _ => return None,
         })
     });
@@ -86,6 +134,7 @@ fn main() {
         for s in 0..3u8 { for op in ["complete", "cancel"] { v.push(format!("act enum {s} {op}")); } }
         for s in 0..6u8 { for op in ["complete", "cancel"] { v.push(format!("act trans {s} {op}")); } }
         for o in 0..2 { for h in 0..2 { for s in 0..3u8 { for k in 0..2 { v.push(format!("act closepre {o} {h} {s} {k}")); } } } }
+        for who in ["o", "r", "x"] { for h in 0..2 { for s in 0..3u8 { for k in 0..2 { for rd in 0..2 { v.push(format!("act closepre2 {who} {h} {s} {k} {rd}")); } } } } }
         let mut r = Rng::new(cli.seed);
         while (v.len() as u64) < cli.n.min(400) { let i = r.below(v.len() as u64) as usize; v.push(v[i].clone()); }
         v
@@ -108,6 +157,13 @@ fn main() {
                 let (o, h, s, k) = (t[2] == "1", t[3] == "1", t[4].parse::<u8>().unwrap(), t[5] == "1");
                 let want = if o { "ok owner" } else if h && (k || s != 0) { "ok keeper" } else { "err" };
                 if resp != want { out.oracle_fail(&format!("close policy violated: expected {want}, got {resp}"), &req); }
+            }
+            "closepre2" => {
+                let (who, h, s, k, rd) = (t[2], t[3] == "1", t[4].parse::<u8>().unwrap(), t[5] == "1", t[6] == "1");
+                // the signer is the owner iff its key is the header's owner key: the owner, or the "receiver" when no separate receiver is recorded
+                let is_owner = who == "o" || (who == "r" && !rd);
+                let want = if is_owner { "ok owner" } else if h && (k || s != 0) { "ok keeper" } else { "err" };
+                if resp != want { out.oracle_fail(&format!("close policy violated for caller `{who}` (separate receiver: {rd}): expected {want}, got {resp}"), &req); }
             }
             _ => {}
         }
